@@ -369,6 +369,7 @@ impl Engine {
             Rcpt::SelfAddr => Some(sender.clone()),
             Rcpt::Proto(i) => Some(self.a.users[*i as usize % self.n_users()].0.clone()),
             Rcpt::Native(i) => Some(self.a.users[*i as usize % self.n_users()].1.clone()),
+            Rcpt::NativeUpper(i) => Some(self.a.users[*i as usize % self.n_users()].1.to_uppercase()),
             Rcpt::NativeStaker => Some(self.m.cfg.staker.clone()),
             Rcpt::Garbage(k) => Some(self.garbage(*k)),
         };
@@ -650,7 +651,7 @@ impl Engine {
         self.in_domain = self.domain_ok(&[b]);
         let res = self.exec(&sender, &[], &json!({"submit_batch": {}}), Origin::Other);
         if !res.ok {
-            if should && !res.env_fault && !artefact && !res.panicked {
+            if should && !res.env_fault && !artefact && (!res.panicked || self.in_domain) {
                 self.v("C06", "submit_succeeds_when_due", format!("SubmitBatch refused although running, non-empty and due (now={}, due={}): {}", now, pend.due, res.err));
             }
             return;
@@ -752,6 +753,10 @@ impl Engine {
             b.reqs.remove(&sender);
             b.paid += paid_to_sender + paid_others;
         }
+        let remaining = self.m.batches.get(&id).map(|b| b.reqs.len()).unwrap_or(0);
+        if remaining > 0 && self.q(json!({"batch": {"id": id}})).is_none() {
+            self.v("C05", "batch_kept_while_requests_remain", format!("batch {} disappeared after a withdrawal although {} requester(s) have not withdrawn", id, remaining));
+        }
         self.check_requests_of(&sender, "C05", "claim_consumed");
     }
 
@@ -776,6 +781,7 @@ impl Engine {
             250 => self.m.cfg.staker.clone(),
             251 => self.garbage(3),
             252 => self.a.users[0].0.clone(),
+            100..=120 => self.a.users[(i - 100) as usize % self.n_users()].1.to_uppercase(),
             _ => self.a.users[i as usize % self.n_users()].1.clone(),
         });
         let target = recv_arg.clone().unwrap_or_else(|| self.m.cfg.staker.clone());
@@ -800,6 +806,9 @@ impl Engine {
             }
             if res.env_fault {
                 self.stats.probe("recovery_own_transfer_failed");
+            } else if should_be_possible && !res.panicked && !self.m.reckless && self.m.swept == 0 && !res.err.contains("insufficient funds") {
+                // refundable transfers of this receiver exist: they stay recoverable
+                self.v("C07", "refundable_stays_recoverable", format!("{} refundable transfer(s) to {} exist but the recovery was refused: {}", sel.len(), target, res.err));
             }
             return;
         }
@@ -1048,6 +1057,9 @@ impl Engine {
                 self.v("C09", "impostor_refused", format!("ReceiveUnstakedTokens accepted from {} ({:?})", acct, mode));
             } else {
                 self.v("C06", "receive_only_submitted_and_due", format!("batch {} (status {}) accepted delivery at now={} due={}", id, mb.status, now, mb.due));
+                if mb.status == 2 {
+                    self.v("C05", "received_amount_fixed_once_received", format!("batch {} had received {:?} and accepted another delivery of {}: later payouts use a different base", id, mb.received, amount));
+                }
             }
         }
         // the amount recorded for the batch is what arrived: it is the base of every pro-rata payout
